@@ -417,6 +417,26 @@ def rule_close_transport(ctx, rule):
     rep.add(rule, 'RSocketBase._close_transport / an obtained transport is closed', f, ok and n_closed > 0,
             'when the transport future is done and holds a transport, transport.close() is awaited (%d paths)' % len(ps)
             if ok and n_closed else 'close() can return without closing the transport it obtained')
+    # the only thing that excuses a return without close() is that no transport was obtained (future not done, or it
+    # holds None): a path that returns before the done() test, or with done() true and a transport at hand, on any other
+    # condition (liveness flag, closing flag, ...) leaks the old transport on exactly the causes that set that condition
+    early = []
+    for p in ps:
+        if p.outcome != 'return':
+            continue
+        closes = [e for e in p.events if e.kind == 'call' and e.data.get('name') == 'close' and e.data.get('awaited')]
+        if closes:
+            continue
+        conds = [e for e in p.events if e.kind == 'cond']
+        excused = any(('done' in repr(e.data['key']) and e.data['key'][0] == 'truth' and e.data['value'] is False) or
+                      (e.data['key'][0] == 'isnone' and e.data['value'] is True) for e in conds)
+        if not excused:
+            early.append(p)
+    rep.add(rule, 'RSocketBase._close_transport / no exit without close() but "no transport obtained"', f, not early,
+            'every returning path either awaits transport.close() or found the transport future not done / holding None '
+            '(%d paths)' % len(ps) if not early else
+            'a path returns without closing the transport although the transport future was not found empty (conditions: %s)'
+            % ', '.join(sorted({repr(e.data['key'])[:60] for p in early for e in p.events if e.kind == 'cond'})))
     # whatever transport.close() raises stays inside: close() and the reconnect loop go on after a transport that
     # fails to close (a reset connection re-raises its error from close())
     pe = ctx.paths(f, slots.RSocketClient, inline_depth=1, no_inline={'_current_transport', '_log_identifier'},
